@@ -173,6 +173,16 @@ func (e *Environment) SaveGlobals(to io.Writer, maxValueLen int) (int, error) {
 			//   x=func(a,b){a+b}
 			// and so is a named function bound to another name (h=g is saved as h=func g(a,b){a+b}, not as a second
 			// definition of g, which lost h).
+			if f.Name != nil {
+				// Loading h=func g(..){..} also (re)defines g: only right while g still is that same function. Once g
+				// was redefined, rebound or deleted the alias is saved without the inner name, as h=(a,b)=>a+b.
+				if own, ok := e.store[f.Name.Literal()]; !ok || own.Type() != FUNC || own.Inspect() != f.Inspect() {
+					f.Name = nil
+					f.Lambda = true
+					SetCacheKey(&f)
+					v = f
+				}
+			}
 			// fallthrough.
 		}
 		val := v.Inspect()
